@@ -196,7 +196,9 @@ class FnTx:
                 self.err(n, "power kinds")
             b, kb = self.tx(n.right)
             # machine integers (`zint`: pointer / size arithmetic): + - * with Python's floor `%` and `//`
-            if "zint" in (ka, kb):
+            if "zint" in (ka, kb) and "real" not in (
+                    ka if not (isinstance(n.left, ast.Constant) and isinstance(n.left.value, int)) else "lit",
+                    kb if not (isinstance(n.right, ast.Constant) and isinstance(n.right.value, int)) else "lit"):
                 a, ka = self.as_zint(n.left, a, ka)
                 b, kb = self.as_zint(n.right, b, kb)
                 if ka == "zint" and kb == "zint":
@@ -212,6 +214,15 @@ class FnTx:
                             return f"((({a} : ℤ) : ℝ) / (({b} : ℤ) : ℝ))", "real"
                         return f"((Float.ofInt {a}) / (Float.ofInt {b}))", "real"
                 self.err(n, f"integer arithmetic on kinds {ka}, {kb}")
+            if {ka, kb} == {"real", "zint"} or (ka == "real" and kb == "real" and isinstance(n.op, ast.Mod)):
+                cast = (lambda t: f"(({t} : ℤ) : ℝ)") if fl.R else (lambda t: f"(Float.ofInt {t})")
+                if ka == "zint":
+                    a, ka = cast(a), "real"
+                if kb == "zint":
+                    b, kb = cast(b), "real"
+                if isinstance(n.op, ast.Mod):       # Python float `%` (sign of the divisor): a - b * floor(a / b)
+                    fl_ = (f"((⌊{a} / {b}⌋ : ℤ) : ℝ)" if fl.R else f"(Float.floor ({a} / {b}))")
+                    return f"({a} - ({b} * {fl_}))", "real"
             if isinstance(n.op, ast.FloorDiv) and ka == "real" and kb == "real":
                 return (f"((⌊{a} / {b}⌋ : ℤ) : ℝ)" if fl.R else f"(Float.floor ({a} / {b}))"), "real"
             op = {ast.Add: "+", ast.Sub: "-", ast.Mult: "*", ast.Div: "/"}.get(type(n.op))
@@ -228,6 +239,10 @@ class FnTx:
             if ka == "bool" and isinstance(n.comparators[0], ast.Constant) and n.comparators[0].value == 0 and opn == "Eq":
                 return fl.not_(a), "bool"
             if ka == "real" and kb == "real" and opn in ("Eq", "NotEq", "Lt", "LtE", "Gt", "GtE"):
+                return fl.cmp(opn, a, b), "bool"
+            if {ka, kb} == {"real", "zint"} and not any(isinstance(x, ast.Constant) for x in (n.left, n.comparators[0])):
+                cast = (lambda t: f"(({t} : ℤ) : ℝ)") if fl.R else (lambda t: f"(Float.ofInt {t})")
+                a, b = (cast(a) if ka == "zint" else a), (cast(b) if kb == "zint" else b)
                 return fl.cmp(opn, a, b), "bool"
             if "zint" in (ka, kb):
                 a, ka = self.as_zint(n.left, a, ka)
@@ -347,6 +362,11 @@ class FnTx:
                 if ka != "real":
                     self.err(n, f"{fname} of {ka}")
                 return g(a), "real"
+            if fname == "round" and len(n.args) == 1 and isinstance(f, ast.Name):     # Python round(): half to even, an int
+                a, ka = self.tx(n.args[0])
+                if ka != "real":
+                    self.err(n, f"round() of {ka}")
+                return (f"(Gen.roundHalfEven {a})" if fl.R else f"(Gen.froundHE {a})"), "zint"
             if fname == "int" and len(n.args) == 1:
                 a, ka = self.tx(n.args[0])
                 if ka == "zint":
@@ -436,6 +456,8 @@ class FnTx:
                 if ko == "bool":
                     return fl.ite(obj, fl.lit(1), fl.lit(0)), "real"
                 return obj, ko
+            if m == "round" and not n.args and ko == "real":                       # torch.round: half to even, keeps the dtype
+                return (f"((Gen.roundHalfEven {obj} : ℤ) : ℝ)" if fl.R else f"(Float.ofInt (Gen.froundHE {obj}))"), "real"
             if m == "long" and not n.args:
                 if ko == "zint":
                     return obj, "zint"
@@ -711,6 +733,8 @@ def translate_module(mod: str, item: dict) -> dict:
             text = f"import InfernoVerif.Gen.{ext}{flv}\n" + text
         if flv == "R" and ("⌈" in text or "⌊" in text):
             text = "import Mathlib.Algebra.Order.Floor.Ring\n" + text
+        if flv == "R" and "Gen.roundHalfEven" in text:
+            text = "import InfernoVerif.Gen.PreludeR\n" + text
         if flv == "R" and "Real.pi" in text:
             text = "import Mathlib.Analysis.SpecialFunctions.Trigonometric.Basic\n" + text
         outs[flv] = text
